@@ -289,7 +289,9 @@ Placements(d) ==
   IN {<<>>}
      \cup (IF MaxComments >= 1 THEN {<<c>> : c \in UNION {OneAt(gs, i) : i \in el}} ELSE {})
      \cup (IF MaxComments >= 2
-           THEN UNION {{<<c1, c2>> : c1 \in OneAt(gs, ij[1]), c2 \in {x \in OneAt(gs, ij[2]) : x.sp = "plain"}} :
+           \* (two comments in the same end-of-line gap: only a block comment can be followed by another comment there)
+           THEN UNION {{<<c1, c2>> : c1 \in {x \in OneAt(gs, ij[1]) : ij[1] # ij[2] \/ gs[ij[1]].c # "trail" \/ x.m = "/*"},
+                                      c2 \in {x \in OneAt(gs, ij[2]) : x.sp = "plain"}} :
                          ij \in {p \in el \X el : p[1] <= p[2] /\ p[2] <= p[1] + 3}}     \* the same or a neighbouring gap
            ELSE {})
 
